@@ -183,7 +183,7 @@ class C11(Spec):
     rule = ('op files of iterable expressions: (1) every container kind (Array, List, Tuple, white-box Table slot arrays with holes, white-box '
             'Tree shapes, Tree built with set, Range) at every length 0..40 (80 thorough) and some large; (2) every Range (start, stop, step) '
             'in [-9,9]^3 ([-20,20]^3 thorough), all constructor arities and `_`, plus random large ranges; (3) every Slice (start, stop, step) '
-            'in [-9,9]^3 over Array, Tuple and Range of every length 0..8 ([-12,12]^3 over 0..24 and [-20,20]^3 at six lengths, thorough), '
+            'in [-9,9]^3 over Array, Tuple and Range of every length 0..8 ([-10,10]^3 over 0..24 and [-20,20]^3 at four lengths, thorough), '
             'smaller cubes over List, Table, Tree, Zip, Map, a strided Range; all arities/`_`/reverse through the stack macros; Slice_Arg '
             'alone for n <= 12, args in [-15,15]; (4) Zip of 1-4 random inputs of equal and unequal lengths, enumerate of every kind; '
             '(5) random compositions of views to depth 3 (4 thorough), half of them built with the stack macros: one family stays outside '
@@ -225,12 +225,12 @@ class C11(Spec):
         # (3) Slice: every (start, stop, step) of the cube over every length, per underlying kind
         NS = 8 if quick else 24
         for kind, Rk in (('array', 9), ('tuple', 9), ('range', 9), ('list', 3), ('table', 3), ('tree', 3), ('zip', 3), ('map', 3), ('range3', 4)):
-            if not quick: Rk = {'array': 12, 'tuple': 12, 'range': 12}.get(kind, 5)
+            if not quick: Rk = {'array': 10, 'tuple': 10, 'range': 10}.get(kind, 4)
             for n in range(0, NS + 1):
                 chunked(f'slice_{kind}{n}', sweep(kind, n, Rk, with_blank=True), 8000)
         if not quick:
             for kind in ('array', 'tuple'):
-                for n in (0, 1, 2, 7, 13, 24):
+                for n in (0, 1, 7, 24):
                     chunked(f'slicewide_{kind}{n}', sweep(kind, n, 20), 12000)
         # Slice_Arg / slice_stack alone
         lines = []
